@@ -2,15 +2,14 @@ SPECIFICATION Spec
 CONSTANTS
   NTypes = 3
   MaxRuns = 2
-  Shapes <- ShapesUniq
-  Limits = {0}
-  DefIds = {1}
-  OmitVals = {FALSE}
+  Shapes <- ShapesEmit
+  Limits = {0, 2}
+  DefIds = {1, 2}
+  OmitVals = {FALSE, TRUE}
   Modes = {"fresh", "lctx", "gen"}
   ResetLimiter = TRUE
   IdentityDepKey = TRUE
-  VolatileUniq = FALSE
+  VolatileUniq = TRUE
   FreshModule = TRUE
-VIEW View
-INVARIANT EmitBad
+INVARIANT Emit
 CHECK_DEADLOCK FALSE
